@@ -13,6 +13,7 @@
 """
 import json
 import os
+import hashlib
 import random
 import re
 import sys
@@ -701,6 +702,61 @@ def titan_declared_sizes(rep, rnd):
     rep.add("traces_validated_against_impl", n)
 
 
+def unreadable_client_certificates(rep, rnd):
+    """C04 "the fingerprint of the certificate actually presented", for certificates the TLS library hands over and the
+    certificate library cannot load (X.509 version field 3, a BOOLEAN encoded as 01, ...): the chain is consulted with
+    sha256 of what was presented, or the request is refused without consulting it - never with "no certificate"."""
+    import asyncio
+    from nauyaca.protocol.response import GeminiResponse
+    from nauyaca.server.middleware import MiddlewareChain
+    from nauyaca.server.protocol import GeminiServerProtocol
+    from vf.memtls import make_cert
+    from vf.transports import FakeTransport
+    from vf.vloop import VLoop
+    good = make_cert("ec", "odd-client")[2]
+    at = good.index(bytes.fromhex("a003020102"))
+    ders = {"version field 3": good[:at + 4] + b"\x03" + good[at + 5:], "truncated": good[:len(good) // 2],
+            "not a certificate": b"\x30\x03\x01\x01\x01", "readable (control)": good}
+    n = 0
+    for what, der in ders.items():
+        for line in (b"gemini://h.ex/page\r\n", b"titan://h.ex/up.gmi;size=3;mime=text/plain\r\nabc"):
+            loop = VLoop()
+            asyncio.set_event_loop(loop)
+            try:
+                seen, handled = [], []
+
+                class Rec:
+                    async def process_request(self, url, ip, fp=None):
+                        seen.append(fp)
+                        return True, None
+
+                class Up:
+                    async def handle_upload(self, req):
+                        handled.append("upload")
+                        return GeminiResponse(status=20, meta="text/gemini", body="stored\n")
+
+                def handler(req):
+                    handled.append("request")
+                    return GeminiResponse(status=20, meta="text/gemini", body="page\n")
+                proto = GeminiServerProtocol(handler, MiddlewareChain([Rec()]), Up())
+                tr = FakeTransport(loop, proto, peername=("192.0.2.7", 40000), peer_der=der, auto_lost=True)
+                loop.call(proto.connection_made, tr)
+                loop.call(tr.feed, line)
+                loop.run_idle()
+                n += 1
+                want = "sha256:" + hashlib.sha256(der).hexdigest()
+                wrong = [fp for fp in seen if fp != want]
+                if wrong or (handled and not seen):
+                    rep.violation({"formula": "ConsultedWithRealIdentity", "unreadable_cert": what},
+                                  "ConsultedWithRealIdentity falsified: a client presenting a certificate the certificate library cannot load (%s, sha256 %s...) sent %r: the chain was consulted with fingerprint(s) %s, handlers run: %s, answer %r" % (
+                                      what, want[7:23], line[:40], seen, handled, bytes(tr.wire)[:40]), None)
+            finally:
+                asyncio.set_event_loop(None)
+                loop.close()
+    rep.add("unreadable_client_certificate_requests", n)
+    rep.add("traces_validated_against_impl", n)
+
+
 def binding_selftest(rep, rnd):
     """Demonstrate that the trace spec constrains: corrupt one logged field / drop one event of accepted
     traces and require rejection."""
@@ -775,6 +831,7 @@ def main(pid, rep=None, finish=True):
             suspects.append(("trace", t, {"cfg": t["cfg"], "steps": t["steps"]}))
         if pid == "C04":
             titan_param_paths(rep, rnd)
+            unreadable_client_certificates(rep, rnd)
         if pid == "C07":
             titan_segmentation(rep, rnd)
         if pid == "C01":
